@@ -11,6 +11,19 @@ FLAG_NAMES = ["flag_running_values", "flag_fuse_track", "flag_fuse_value", "flag
 SIGNATURES = ([(n, 8) for n in range(2, 17)] + [(n, 4) for n in range(1, 9)] + [(n, 2) for n in range(1, 5)] +
               [(n, 16) for n in range(4, 33, 2)] + [(n, 32) for n in range(8, 65, 4)] + [(n, 64) for n in range(16, 129, 8)] +
               [(n, 1) for n in range(1, 3)])
+
+
+def signatures_for(ts_range):
+    """every (num, den), den a power of two up to 64, that lasts a whole number of eighths within ts_range"""
+    lo, hi = ts_range
+    out = []
+    for den in (1, 2, 4, 8, 16, 32, 64):
+        for scaled in range(lo, hi + 1):
+            if (scaled * den) % 8 == 0 and scaled * den // 8 >= 1:
+                out.append((scaled * den // 8, den))
+    return out
+
+
 SPECIAL_BINS = [1, 2, 3, 4, 5, 8, 15, 16, 19, 22, 32, 36, 64, 100, 127]
 
 
@@ -24,6 +37,9 @@ def config(draw, shard=0, nshards=1, max_tracks=4, small_vocab=True):
     so that none is starved."""
     combo = draw(st.one_of(st.just(shard % 16), st.just((shard + nshards) % 16), st.integers(0, 15)))
     cfg = {"num_tracks": draw(st.integers(1, max_tracks))}
+    if max_tracks >= 4 and draw(st.integers(0, 11)) == 0:
+        cfg["num_tracks"] = draw(st.integers(5, 12))      # two-digit track numbers
+    cfg["ts_range"] = draw(st.sampled_from([None, None, None, None, [1, 16], [2, 12], [4, 20], [1, 24], [8, 8]]))
     # resolution the tokeniser computes bar capacities with (None = library default 24); pieces are laid out on
     # bars of 4*ppqn*num/den ticks, so only multiples of 24 keep every capacity a multiple of the rest unit
     cfg["ppqn"] = draw(st.sampled_from([None, None, None, None, None, 24, 48, 96]))
@@ -57,6 +73,8 @@ def config(draw, shard=0, nshards=1, max_tracks=4, small_vocab=True):
 def make_tokeniser(cfg):
     kw = {k: cfg[k] for k in FLAG_NAMES}
     kw["flag_simplify_time_signature"] = cfg.get("flag_simplify_time_signature", True)
+    if cfg.get("ts_range"):
+        kw["time_signature_range"] = tuple(cfg["ts_range"])
     return Tokeniser(ppqn=cfg.get("ppqn"), num_tracks=cfg["num_tracks"], pitch_range=tuple(cfg["pitch_range"]),
                      step_sizes=list(cfg["step_sizes"]) if cfg["step_sizes"] is not None else None,
                      note_values=list(cfg["note_values"]) if cfg["note_values"] is not None else None,
@@ -72,18 +90,21 @@ def step_sizes_of(cfg):
 
 
 @st.composite
-def bar_plan(draw, max_bars=6, allow_default_first=True, min_bars=1, ppqn=24):
+def bar_plan(draw, max_bars=6, allow_default_first=True, min_bars=1, ppqn=24, ts_range=None):
     """list of bars [(start, length, (num, den))] and the signature events [["ts", tick, num, den]]"""
     nbars = draw(st.integers(min_bars, max_bars))
-    explicit = draw(st.booleans()) or not allow_default_first
-    cur = draw(st.sampled_from(SIGNATURES)) if explicit else (4, 4)
+    sigs = SIGNATURES if not ts_range else signatures_for(ts_range)
+    # the implicit default (8 eighths) is only a valid first bar if 8 lies in the tokeniser's signature range
+    explicit = draw(st.booleans()) or not allow_default_first or (ts_range is not None and not ts_range[0] <= 8 <= ts_range[1])
+    cur = draw(st.sampled_from(sigs)) if explicit else (4, 4)
     events = [["ts", 0, cur[0], cur[1]]] if explicit else []
     bars = []
     t = 0
     for b in range(nbars):
         if b > 0 and draw(st.integers(0, 2)) == 0:
-            cur = draw(st.one_of(st.sampled_from(SIGNATURES), st.sampled_from([(2, 8), (3, 8), (16, 8), (4, 4)])).filter(
-                lambda s, c=cur: s != c))
+            extra = [s for s in [(2, 8), (3, 8), (16, 8), (4, 4)] if s in sigs] or sigs
+            if len(set(sigs)) > 1:
+                cur = draw(st.one_of(st.sampled_from(sigs), st.sampled_from(extra)).filter(lambda s, c=cur: s != c))
             events.append(["ts", t, cur[0], cur[1]])
         length = 4 * ppqn * cur[0] // cur[1]
         bars.append([t, length, list(cur)])
@@ -100,7 +121,8 @@ def piece(draw, cfg, max_bars=6, max_notes=10, allow_crossing=True, noise=True, 
     values = note_values_of(cfg)
     lo, hi = cfg["pitch_range"]
     nt = cfg["num_tracks"]
-    bars, ts_events = draw(bar_plan(max_bars=max_bars, min_bars=min_bars, ppqn=cfg.get("ppqn") or 24))
+    bars, ts_events = draw(bar_plan(max_bars=max_bars, min_bars=min_bars, ppqn=cfg.get("ppqn") or 24,
+                                    ts_range=cfg.get("ts_range")))
     total = bars[-1][0] + bars[-1][1]
     meta_track = draw(st.integers(0, nt - 1))
     pad_mode = draw(st.sampled_from(["none", "grid_tick", "full", "mixed"]))
